@@ -179,7 +179,15 @@ def frame_configs(mgr, frame):
     crit = CriticalObjectFilterConfig(mgr.evaluator_config, **kw)
     pf = frame["pf"]
     pfc = PerceptionPassFailConfig(mgr.evaluator_config, list(pf["targets"]), [t / 2.0 for t in pf["thr"]] if pf["thr"] else None)
+    # other frame configurations live in the same process (an application prepares a near and a wide filter up front): built AFTER the ones used
+    n_ = len(mgr.evaluator_config.target_labels)
+    names_ = [str(l_.value) for l_ in mgr.evaluator_config.target_labels]
+    _DECOYS[:] = [CriticalObjectFilterConfig(mgr.evaluator_config, names_[::-1], max_x_position_list=[0.25] * n_, max_y_position_list=[0.25] * n_, target_uuids=["nobody"]),
+                  PerceptionPassFailConfig(mgr.evaluator_config, names_[::-1], [0.01] * n_)]
     return crit, pfc
+
+
+_DECOYS = []
 
 
 # how an abstract confidence (percent) becomes a float: "wide" = c / 100; "tight" = 0.5 + c * 1e-9 (still pairwise distinct and in the same order,
@@ -216,16 +224,18 @@ def render_objects(frame, rendering, ego):
     return ests, gts
 
 
-def looked_up_gt(gts, ego, time, name="0"):
-    """the ground truth of a map-frame scene the way an evaluation gets it from a loaded dataset by an interpolating time lookup: two loaded
+def looked_up_gt(gts, ego, time, name="0", storage="map", one_sided=False):
+    """the ground truth of a scene the way an evaluation gets it from a loaded dataset by an interpolating time lookup: two loaded
     frames around `time` (the ego drives and turns through `ego`, the objects stand still in the map), the earlier of which has been used by an
-    evaluation before (a map -> base_link query on its transforms, a look at the objects' geometry)"""
+    evaluation before (a map -> base_link query on its transforms, a look at the objects' geometry).  storage = "base_link": `gts` are given
+    relative to `ego` and every loaded frame holds them relative to its own ego pose.  one_sided: every second object is annotated in the
+    earlier frame only (the lookup keeps such objects)"""
     import copy
 
     from perception_eval.common.dataset import get_interpolated_now_frame
     from perception_eval.common.schema import FrameID
 
-    from ..build import EgoPose, frame_gt
+    from ..build import EgoPose, frame_gt, yaw_quat
 
     frames = []
     for sgn, t in ((-1, time - 100), (1, time + 100)):
@@ -233,6 +243,14 @@ def looked_up_gt(gts, ego, time, name="0"):
         objs = copy.deepcopy(list(gts))
         for o in objs:
             o.unix_time = t
+            if storage == "base_link":
+                (mx, my, mz), myaw = ego.to_map(o.state.position, o.state.orientation.yaw_pitch_roll[0])
+                c, s_ = math.cos(-e_.yaw), math.sin(-e_.yaw)
+                dx, dy = mx - e_.t[0], my - e_.t[1]
+                o.state.position = (c * dx - s_ * dy, s_ * dx + c * dy, mz - e_.t[2])
+                o.state.orientation = yaw_quat(myaw - e_.yaw)
+        if one_sided and sgn > 0:
+            objs = [o for j, o in enumerate(objs) if j % 2 == 0]
         frames.append(frame_gt(objs, time=t, name=name, ego=e_))
     frames[0].transforms.transform((FrameID.MAP, FrameID.BASE_LINK), (1.0, 2.0, 0.0))
     for o in frames[0].objects:
@@ -241,6 +259,37 @@ def looked_up_gt(gts, ego, time, name="0"):
     if out is None or out is frames[0] or out is frames[1]:
         raise RuntimeError("harness: the lookup half way between two loaded frames did not interpolate")
     return out
+
+
+# unknown and false_positive keep their meaning ("animal" is a name of unknown and "trailer" a name of truck in the unmerged table)
+RELABEL = {"car": "motorbike", "pedestrian": "bus", "bus": "truck"}
+PAD_LABELS = ["bicycle", "pedestrian"]                                                            # no object carries them
+
+
+def relabel(cfg, frame):
+    """the same configuration and scene with every ordinary label replaced by a rarely used one (the specification looks inside no label other
+    than unknown / false_positive) and two further target labels, which no object carries, appended to every label list and per-label list"""
+    import copy
+
+    def names(ls):
+        return [RELABEL.get(x, x) for x in ls]
+
+    def pad(ls, k=len(PAD_LABELS)):
+        return list(ls) + [ls[-1]] * k if ls else ls
+
+    c2, f2 = copy.deepcopy(cfg), copy.deepcopy(frame)
+    c2["targets"] = names(c2["targets"]) + PAD_LABELS
+    for k in ("radius", "cd", "pd"):
+        c2[k] = pad(c2[k])
+    for k in ("xmax", "ymax", "dmax", "dmin", "minPts", "conf"):
+        c2["mfilter"][k] = pad(c2["mfilter"][k])
+        f2["crit"][k] = pad(f2["crit"][k])
+    f2["crit"]["targets"] = names(f2["crit"]["targets"]) + PAD_LABELS
+    f2["pf"]["targets"] = names(f2["pf"]["targets"]) + PAD_LABELS
+    f2["pf"]["thr"] = pad(f2["pf"]["thr"])
+    for o in list(f2["ests"]) + list(f2["gts"]):
+        o["label"] = RELABEL.get(o["label"], o["label"])
+    return c2, f2
 
 
 def pairs(results):
@@ -363,6 +412,9 @@ def run_scene(cfg, frame, rendering, ego, stage_check=True):
     """one real execution -> (projection, stage projection)"""
     from ..build import frame_gt
 
+    if rendering.endswith(":relabelled"):
+        cfg, frame = relabel(cfg, frame)
+        rendering = rendering.split(":")[0]
     mgr = manager_for(cfg, "map" if rendering.startswith("map") else "base_link")
     crit, pfc = frame_configs(mgr, frame)
     stage = None
@@ -398,6 +450,9 @@ def replay_group(arg):
     if h % 2 == 0:
         # the ground truth of the map scene obtained by an interpolating lookup on loaded frames (every second scene)
         renders.append(("map:looked-up", _egos()[1 + (h // 2) % 2]))
+    if h % 3 == 1:
+        # rarely used label names, label lists of 4-5 entries (every third scene)
+        renders.append(("base_link:relabelled", _egos()[0]))
     impls = []
     for rendering, ego in renders:
         n += 1
